@@ -24,6 +24,8 @@ def table(draw, max_rows=12, nan=True, min_rows=1, time_index=False):
             acc += s
             ts.append(acc)
         t["ts"] = ts
+        # resolution of the index (epoch seconds read with unit="s" give a datetime64[s] index)
+        t["ts_unit"] = draw(st.sampled_from(["ns", "ns", "us", "s", "ms"]))
     return t
 
 
@@ -44,7 +46,7 @@ def frame(t, lo=0, hi=None):
                        "g": pd.Series(g, dtype="int64" if t["gkind"] == "int" else "object")})
     if "ts" in t:
         df.index = pd.DatetimeIndex([pd.Timestamp("2020-01-01") + pd.Timedelta(seconds=s)
-                                     for s in t["ts"][lo:hi]])
+                                     for s in t["ts"][lo:hi]]).as_unit(t.get("ts_unit", "ns"))
     else:
         df.index = pd.RangeIndex(lo, lo + len(rows))
     return df
@@ -63,6 +65,7 @@ def example_frame(t, kind="two"):
     ex = {"rows": [[1.0, 1, 0], [2.0, 2, 1]], "gkind": t["gkind"]}
     if "ts" in t:
         ex["ts"] = [0, 1]
+        ex["ts_unit"] = t.get("ts_unit", "ns")
     df = frame(ex)
     if kind == "empty":
         df = df.iloc[:0]
